@@ -50,9 +50,10 @@ def log(*a):
 # ----------------------------------------------------------------------------------------------
 # Go driver
 # ----------------------------------------------------------------------------------------------
-def build_harness(race=False):
+def build_harness(race=False, cmd="mktsverif"):
+    """Build harness/cmd/<cmd> against /repo's current working tree with -tags verif."""
     os.makedirs(BUILD, exist_ok=True)
-    out = os.path.join(BUILD, "mktsverif-race" if race else "mktsverif")
+    out = os.path.join(BUILD, cmd + ("-race" if race else ""))
     shutil.copyfile(os.path.join(REPO, "go.sum"), os.path.join(HARNESS, "go.sum"))
     gomod = os.path.join(HARNESS, "go.mod")
     txt = open(gomod).read()
@@ -60,7 +61,7 @@ def build_harness(race=False):
     new = re.sub(r"replace github.com/alpacahq/marketstore/v4 => .*\n", want, txt)
     if new != txt:
         open(gomod, "w").write(new)
-    cmd = ["go", "build", "-tags", "verif"] + (["-race"] if race else []) + ["-o", out, "./cmd/mktsverif"]
+    cmd = ["go", "build", "-tags", "verif"] + (["-race"] if race else []) + ["-o", out, "./cmd/" + cmd]
     t = time.time()
     p = subprocess.run(cmd, cwd=HARNESS, env=GOENV, stdout=subprocess.PIPE, stderr=subprocess.STDOUT, text=True)
     if p.returncode != 0:
@@ -241,10 +242,16 @@ def cfg_text(constants, invariants=(), view=None, spec="Spec", properties=(), co
 # verdicts and evidence
 # ----------------------------------------------------------------------------------------------
 def known_findings(prop):
-    p = os.path.join(VERIF, "known_findings.json")
-    if not os.path.exists(p):
-        return []
-    return [k for k in json.load(open(p))["findings"] if k["property"] == prop and k.get("status") == "open"]
+    """open known findings of a property: known_findings.json plus fragments known_findings.d/*.json"""
+    out = []
+    files = [os.path.join(VERIF, "known_findings.json")]
+    dd = os.path.join(VERIF, "known_findings.d")
+    if os.path.isdir(dd):
+        files += sorted(os.path.join(dd, f) for f in os.listdir(dd) if f.endswith(".json"))
+    for p in files:
+        if os.path.exists(p):
+            out += [k for k in json.load(open(p))["findings"] if k["property"] == prop and k.get("status") == "open"]
+    return out
 
 
 class Result:
